@@ -9,7 +9,8 @@
 (*         at a time), whose events are emitted in call order.  The Runtime   *)
 (*         may have static query parameters in its base path, connection     *)
 (*         re-use enabled; handlers may deliver the body in pieces; upload   *)
-(*         sources may fail.                                                 *)
+(*         sources may fail.  Other Runtimes of the process may be created   *)
+(*         and customised meanwhile (event customise {when, step, what}).    *)
 (* event : exchange {step, op, media, supplied:[{name, loc, kind, vs, off}], *)
 (*         err, handled_op, received:[{name, vs}], handler:{code, hdrs,      *)
 (*         body}, seen:{code, hdrs, body}, wire_path, wire_query, setup}     *)
@@ -39,6 +40,9 @@ XAllowed(s, e) ==
   CASE e.ev = "exchange" -> /\ e.setup
                             /\ Declared(s, e)                                        \* the exchange is the declared step
                             /\ ExchangeOK(Call(e), Obs(e))
+    \* the application created ANOTHER Runtime and customised its codec tables: no concern of this session's Runtime,
+    \* whose configuration (the state) is unchanged - the exchanges that follow are judged as before
+    [] e.ev = "customise" -> TRUE
     [] e.ev = "race" -> s.bop = "race" /\ e.reports = 0       \* no data race among concurrent exchanges (or anywhere else)
     [] OTHER -> FALSE
 
